@@ -10,6 +10,7 @@ for ln in (ROOT / "properties.jsonl").read_text().splitlines():
 
 # claimed properties -> technique (the level text and note come from the props module itself)
 TECHNIQUE = {
+    "C02": "Lean 4 proof (alg(parts)=spec(concat parts) for tree reduce, cumulative scan, overlap windows, blockwise with broadcast, shuffle-based reduce/join; all partitionings) + exact graph correspondence + all-cuts search against pandas",
     "C03": "Lean 4 proof (OR-factoring, squash/split, filter crossing per operator category, DNF + Kleene reader semantics, join-side legality; all trees/valuations) + regenerated flag table decided by the kernel + exact correspondence of the predicate/merge functions",
     "C04": "Lean 4 proof (labels/well-formedness/values per projection rule for any dependents list) + exact correspondence of every modelled _simplify_up/_simplify_down + regenerated flag tables",
     "C05": "Lean 4 proof (confluence of all topological orders / multi-worker schedules over key-indexed graphs) + proven checker on real graphs; purity sampled",
